@@ -32,7 +32,7 @@ impl Rng {
 enum Op {
     Insert(u16, usize), TryInsert(u16, usize), Get(u16), GetEntry(u16), Peek(u16), PeekEntry(u16), Contains(u16), Touch(u16),
     Remove(u16), RemoveEntry(u16), RemoveLru, RemoveMru, GetLru, PeekEnds, SetMaxSize(usize), Mutate(u16, usize),
-    Reserve(usize), TryReserve(usize), ShrinkTo(usize), ShrinkToFit, Clear, Retain(u16), CloneSwap, Drain(u8, u8), Fill(u16, u16),
+    Reserve(usize), TryReserve(usize), ShrinkTo(usize), ShrinkToFit, Clear, Retain(u16), CloneSwap, Drain(u8, u8), Fill(u16, u16), IterWord(u8, u16, u8),
 }
 impl Op {
     fn to_json(&self) -> String {
@@ -48,6 +48,7 @@ impl Op {
             Op::TryReserve(n) => format!("[\"try_reserve\",{}]", n), Op::ShrinkTo(n) => format!("[\"shrink_to\",{}]", n),
             Op::ShrinkToFit => "[\"shrink_to_fit\"]".into(), Op::Clear => "[\"clear\"]".into(), Op::Retain(m) => format!("[\"retain\",{}]", m),
             Op::CloneSwap => "[\"clone_swap\"]".into(), Op::Drain(a, b) => format!("[\"drain\",{},{}]", a, b), Op::Fill(a, n) => format!("[\"fill\",{},{}]", a, n),
+            Op::IterWord(k, bits, n) => format!("[\"iter_word\",{},{},{}]", k, bits, n),
         }
     }
     fn from_json(s: &str) -> Option<Op> {
@@ -62,7 +63,7 @@ impl Op {
             "remove_mru" => Op::RemoveMru, "get_lru" => Op::GetLru, "peek_ends" => Op::PeekEnds, "set_max_size" => Op::SetMaxSize(n(1) as usize),
             "mutate" => Op::Mutate(n(1) as u16, n(2) as usize), "reserve" => Op::Reserve(n(1) as usize), "try_reserve" => Op::TryReserve(n(1) as usize),
             "shrink_to" => Op::ShrinkTo(n(1) as usize), "shrink_to_fit" => Op::ShrinkToFit, "clear" => Op::Clear, "retain" => Op::Retain(n(1) as u16),
-            "clone_swap" => Op::CloneSwap, "drain" => Op::Drain(n(1) as u8, n(2) as u8), "fill" => Op::Fill(n(1) as u16, n(2) as u16),
+            "clone_swap" => Op::CloneSwap, "drain" => Op::Drain(n(1) as u8, n(2) as u8), "fill" => Op::Fill(n(1) as u16, n(2) as u16), "iter_word" => Op::IterWord(n(1) as u8, n(2) as u16, n(3) as u8),
             _ => return None,
         })
     }
@@ -216,6 +217,25 @@ fn apply<S: std::hash::BuildHasher + Clone>(c: &mut LruCache<u16, Val, S>, m: &m
               for _ in 0..b { let x = d.next_back(); let y = exp.pop(); check!(x == y, "drain.next_back() wrong"); } }
             m.list.clear();
         }
+        Op::IterWord(kind, bits, n) => {
+            // any word of next / next_back: front yields the order, back its reverse, each entry once, then None for ever
+            let exp: Vec<(u16, Val)> = m.list.iter().map(|e| (e.0, e.1.clone())).collect();
+            let (mut lo, mut hi) = (0usize, exp.len());
+            macro_rules! word { ($it:expr, $proj:expr) => {{
+                let mut it = $it;
+                for s in 0..n {
+                    let front = (bits >> s) & 1 == 0;
+                    let got = if front { it.next() } else { it.next_back() };
+                    let want = if lo < hi { if front { lo += 1; Some(exp[lo - 1].clone()) } else { hi -= 1; Some(exp[hi].clone()) } } else { None };
+                    check!(got.map($proj) == want.clone().map(|w| $proj((&w.0, &w.1))), "iterator kind {} step {} ({}) yielded the wrong item", kind, s, if front { "next" } else { "next_back" });
+                }
+            }}; }
+            match kind % 3 {
+                0 => word!(c.iter(), |(k, v): (&u16, &Val)| (*k, v.id)),
+                1 => word!(c.keys().map(|k| (k, &Val { heap: 0, id: 0 })).map(|(k, _)| (k, k)), |(k, _): (&u16, _)| (*k, 0u32)),
+                _ => word!(c.values().map(|v| (&0u16, v)), |(_, v): (&u16, &Val)| (0u16, v.id)),
+            }
+        }
         Op::Fill(start, n) => {
             for k in start..start.saturating_add(n) {
                 let id = m.next_id; m.next_id += 1;
@@ -248,7 +268,8 @@ fn gen(rng: &mut Rng, focus: &str, e0: usize) -> (Vec<Op>, usize, usize, bool) {
         let heap = rng.below(12) as usize;
         let w = rng.below(100);
         let f = |names: &[&str]| names.iter().any(|x| focus.contains(x));
-        let op = if f(&["shrink", "reserve", "capacity", "reallocate", "insert_unchecked"]) && w < 35 {
+        let op = if f(&["Iter", "Keys", "Values", "next"]) && w < 40 { Op::IterWord(rng.below(3) as u8, rng.next() as u16, rng.below(9) as u8)
+        } else if f(&["shrink", "reserve", "capacity", "reallocate", "insert_unchecked"]) && w < 35 {
             match rng.below(5) { 0 => Op::ShrinkToFit, 1 => Op::ShrinkTo(rng.below(30) as usize), 2 => Op::Reserve(rng.below(30) as usize), 3 => Op::TryReserve(rng.below(30) as usize), _ => Op::Remove(100 + rng.below(40) as u16) }
         } else if f(&["mutate"]) && w < 35 { Op::Mutate(k, rng.below(40) as usize)
         } else if f(&["try_insert"]) && w < 35 { Op::TryInsert(k, heap)
@@ -259,7 +280,7 @@ fn gen(rng: &mut Rng, focus: &str, e0: usize) -> (Vec<Op>, usize, usize, bool) {
                 11 => Op::Contains(k), 12 => Op::Touch(k), 13 => Op::Remove(k), 14 => Op::RemoveEntry(k), 15 => Op::RemoveLru, 16 => Op::RemoveMru,
                 17 => Op::GetLru, 18 => Op::PeekEnds, 19 => Op::SetMaxSize(rng.below((5 * (e0 + 8)) as u64) as usize), 20 | 21 => Op::Mutate(k, rng.below(40) as usize),
                 22 => match rng.below(4) { 0 => Op::Reserve(rng.below(10) as usize), 1 => Op::TryReserve(rng.below(10) as usize), 2 => Op::ShrinkTo(rng.below(10) as usize), _ => Op::ShrinkToFit },
-                23 => Op::Retain(rng.next() as u16), 24 => if rng.below(2) == 0 { Op::CloneSwap } else { Op::Clear }, _ => Op::Drain(rng.below(3) as u8, rng.below(3) as u8),
+                23 => if rng.below(2) == 0 { Op::Retain(rng.next() as u16) } else { Op::IterWord(rng.below(3) as u8, rng.next() as u16, rng.below(9) as u8) }, 24 => if rng.below(2) == 0 { Op::CloneSwap } else { Op::Clear }, _ => Op::Drain(rng.below(3) as u8, rng.below(3) as u8),
             }
         };
         ops.push(op);
